@@ -92,6 +92,15 @@ func c04core(r *simkit.Run, minSources int, forceFine bool) {
 		inHandler[q.src]--
 		q.exitSeq = sim.Seq
 		ins := v.(instr)
+		// a handler may do what it likes to the request it was handed, including to what identifies the source
+		switch ins.rewrite {
+		case 1:
+			req.Header.Del("Src")
+		case 2:
+			req.Header.Set("Src", srcName((q.src+1)%nsrc))
+		case 3:
+			req.Header.Set("X-Bad-Source", "1")
+		}
 		if ins.panic {
 			q.panics = true
 			panic("handler abort")
@@ -203,7 +212,7 @@ func c04core(r *simkit.Run, minSources int, forceFine bool) {
 			r.Fault("source-unidentifiable")
 		case "finish", "panic":
 			q := pk[rapid.IntRange(0, len(pk)-1).Draw(rt, "which")]
-			ins := instr{status: rapid.SampledFrom([]int{200, 201, 404, 500, 503}).Draw(rt, "status")}
+			ins := instr{status: rapid.SampledFrom([]int{200, 201, 404, 500, 503}).Draw(rt, "status"), rewrite: rapid.SampledFrom([]int{0, 0, 0, 1, 2, 3}).Draw(rt, "handler-rewrites-source")}
 			if rapid.IntRange(0, 3).Draw(rt, "abort") == 0 {
 				ins.panic = true
 			}
